@@ -681,4 +681,100 @@ example : pyInt [] = none ∧ pyInt [45] = none ∧ pyInt [49, 95, 95, 48] = non
     pyInt [43, 32, 49] = none ∧ pyInt [49, 32, 50] = none ∧ pyInt [28, 53] = none ∧ pyInt [48, 120, 49, 48] = none ∧
     pyInt [49, 46, 48] = none ∧ pyInt [8722, 49] = none := by decide
 
+/-! ### `int()` on plain decimal numerals, in general -/
+
+/-- the number a list of decimal digits (most significant first) denotes -/
+def ofDigits (ds : List Nat) : Nat := ds.foldl (fun acc d => 10 * acc + d) 0
+
+theorem decimalOf_ascii : ∀ d, d < 10 → decimalOf (48 + d) = some d := by decide
+theorem isIntWs_ascii_digit : ∀ d, d < 10 → isIntWs (48 + d) = false := by decide
+
+theorem digitsGo_ascii : ∀ (ds : List Nat) (acc : Nat) (last : Bool), (∀ d ∈ ds, d < 10) → (ds ≠ [] ∨ last = true) →
+    digitsGo (ds.map (48 + ·)) acc last = some (ds.foldl (fun acc d => 10 * acc + d) acc)
+  | [], acc, last, _, h => by
+    rcases h with h | h
+    · exact absurd rfl h
+    · subst h; rfl
+  | d :: r, acc, last, hd, _ => by
+    simp only [List.map_cons, digitsGo, decimalOf_ascii d (hd d (by simp)), List.foldl_cons]
+    exact digitsGo_ascii r _ true (fun x hx => hd x (by simp [hx])) (Or.inr rfl)
+
+theorem dropWhile_head_false (p : Nat → Bool) (c : Nat) (r : List Nat) (h : p c = false) : (c :: r).dropWhile p = c :: r := by
+  simp [List.dropWhile, h]
+
+/-- nothing is stripped from a text without whitespace -/
+theorem stripWs_noop (s : Str) (h : ∀ c ∈ s, isIntWs c = false) : stripWs s = s := by
+  unfold stripWs
+  cases s with
+  | nil => rfl
+  | cons c r =>
+    rw [dropWhile_head_false _ _ _ (h c (by simp))]
+    cases hrev : (c :: r).reverse with
+    | nil => simp at hrev
+    | cons c' t =>
+      have hc : c' ∈ c :: r := by
+        have : c' ∈ (c :: r).reverse := by rw [hrev]; simp
+        exact List.mem_reverse.1 this
+      rw [dropWhile_head_false _ _ _ (h c' hc), ← hrev, List.reverse_reverse]
+
+theorem ascii_no_ws (ds : List Nat) (hd : ∀ d ∈ ds, d < 10) : ∀ c ∈ ds.map (48 + ·), isIntWs c = false := by
+  intro c hc
+  obtain ⟨x, hx, rfl⟩ := List.mem_map.1 hc
+  exact isIntWs_ascii_digit x (hd x hx)
+
+theorem digitCount_ascii (ds : List Nat) (hd : ∀ d ∈ ds, d < 10) : digitCount (ds.map (48 + ·)) = ds.length := by
+  unfold digitCount
+  rw [List.filter_eq_self.2, List.length_map]
+  intro c hc
+  obtain ⟨x, hx, rfl⟩ := List.mem_map.1 hc
+  rw [decimalOf_ascii x (hd x hx)]; rfl
+
+/-- **`int()` reads plain decimal numerals**: for every non-empty list of at most 4300 ASCII digits, `int` of the text
+    is the number the digits denote -/
+theorem pyInt_ascii (ds : List Nat) (hne : ds ≠ []) (hd : ∀ d ∈ ds, d < 10) (hl : ds.length ≤ 4300) :
+    pyInt (ds.map (48 + ·)) = some (ofDigits ds : Int) := by
+  unfold pyInt
+  rw [stripWs_noop _ (ascii_no_ws ds hd)]
+  have hcount : ¬ digitCount (ds.map (48 + ·)) > maxStrDigits := by
+    rw [digitCount_ascii ds hd]; unfold maxStrDigits; omega
+  cases ds with
+  | nil => exact absurd rfl hne
+  | cons d r =>
+    have hlt := hd d (by simp)
+    simp only [List.map_cons] at hcount ⊢
+    split
+    · rename_i heq; injection heq with h _; omega
+    · rename_i heq; injection heq with h _; omega
+    · simp only [hcount, if_false]
+      have := digitsGo_ascii (d :: r) 0 false hd (Or.inl (by simp))
+      simp only [List.map_cons] at this
+      rw [this]; rfl
+
+/-- the same with a minus sign in front -/
+theorem pyInt_ascii_neg (ds : List Nat) (hne : ds ≠ []) (hd : ∀ d ∈ ds, d < 10) (hl : ds.length ≤ 4300) :
+    pyInt (45 :: ds.map (48 + ·)) = some (-(ofDigits ds : Int)) := by
+  unfold pyInt
+  have hs : stripWs (45 :: ds.map (48 + ·)) = 45 :: ds.map (48 + ·) := by
+    apply stripWs_noop
+    intro c hc
+    rcases List.mem_cons.1 hc with rfl | hc
+    · decide
+    · exact ascii_no_ws ds hd c hc
+  rw [hs]
+  have hcount : ¬ digitCount (ds.map (48 + ·)) > maxStrDigits := by
+    rw [digitCount_ascii ds hd]; unfold maxStrDigits; omega
+  simp only [hcount, if_false]
+  rw [digitsGo_ascii ds 0 false hd (Or.inl hne)]; rfl
+
+/-- consequence for the getter: `?n=<decimal numeral of v>` (as the last value of `n`) is returned iff `v` is within the bounds -/
+theorem getInt_decimal (inj : Int → σ) (p : Qs.Params) (name : Str) (req : Bool) (mn mx : Option Int) (store : Option (Store σ))
+    (ds : List Nat) (hne : ds ≠ []) (hd : ∀ d ∈ ds, d < 10) (hl : ds.length ≤ 4300)
+    (hs : lastValue p name = some (ds.map (48 + ·))) :
+    getInt inj p name req mn mx store =
+      if inBounds mn mx (ofDigits ds) then .ret (.value (ofDigits ds)) (doStore store name (inj (ofDigits ds)))
+      else .ret .invalid400 store :=
+  getInt_bounds_exact inj p name req mn mx store _ _ hs (pyInt_ascii ds hne hd hl)
+
+example : pyInt [49, 50, 48] = some 120 := pyInt_ascii [1, 2, 0] (by decide) (by decide) (by decide)
+
 end Gt
